@@ -1,0 +1,28 @@
+//go:build verif
+
+package s2
+
+// This file is compiled only with the build tag "verif". It provides the
+// schedule points used by the external verification harness to control the
+// interleaving of goroutines inside ShapeIndex.maybeApplyUpdates. Without a
+// registered hook a schedule point does nothing.
+
+import "sync/atomic"
+
+var verifSchedHook atomic.Pointer[func(k int)]
+
+// VerifSetSchedHook installs f as the schedule-point hook (nil removes it).
+func VerifSetSchedHook(f func(k int)) {
+	if f == nil {
+		verifSchedHook.Store(nil)
+		return
+	}
+	verifSchedHook.Store(&f)
+}
+
+// verifSchedPoint calls the registered hook, if any, with the point number k.
+func verifSchedPoint(k int) {
+	if f := verifSchedHook.Load(); f != nil {
+		(*f)(k)
+	}
+}
